@@ -301,6 +301,8 @@ class Env:
             return lambda res, exc: 'begin %d' % u64(env.base._tid)
 
         def pre_finish(txn, *a, **kw):
+            env.rec.fail_at = None          # injected raw faults stop at the point of no return
+
             def line(res, exc):
                 if exc is None:
                     for o in env.staged_oids:
